@@ -26,7 +26,8 @@ Definition current : variant :=
      v_ts_exact := negb fp_ts_compares_mtimes;
      v_ts_gen_exist := fp_ts_checks_generates;
      v_dry_mkdir_guard := Nat.eqb fp_mkdir_dry_code 1;
-     v_force_records := negb (Nat.eqb fp_success_record_code 0) |}.
+     v_force_records := negb (Nat.eqb fp_success_record_code 0);
+     v_dry_fail_guard := Nat.eqb fp_cmd_error_dry_code 1 |}.
 
 (* shapes the model hard-wires; any other shape of the code breaks this obligation *)
 Definition fp_shape_ok : bool :=
@@ -40,6 +41,7 @@ Definition fp_shape_ok : bool :=
   && String.eqb fp_skip_fingerprinting "e.ForceAll||(!call.Indirect&&e.Force)"
   && (Nat.eqb fp_editor_dry_code 0 || Nat.eqb fp_editor_dry_code 1)
   && (Nat.eqb fp_mkdir_dry_code 0 || Nat.eqb fp_mkdir_dry_code 1)
+  && (Nat.eqb fp_cmd_error_dry_code 0 || Nat.eqb fp_cmd_error_dry_code 1)
   && (safe_protocol || check_writes_protocol)                     (* one of the two protocols, recognisably *)
   && fp_normalize_plain                                           (* state file name = normalizeFilename(name) *)
   && true.
